@@ -135,7 +135,7 @@ func (m *machine) Next(t *rapid.T) hOp {
 	}
 	var w [6]int // plain, htlt, dup, claim, block, params
 	if m.c03() {
-		w = [6]int{24, 12, 5, 29, 25, 5}
+		w = [6]int{19, 17, 5, 29, 25, 5}
 	} else {
 		w = [6]int{5, 31, 2, 29, 25, 8}
 	}
